@@ -63,6 +63,52 @@ func (e *Engine) varargsElems(st *State, c *ssa.CallCommon, argIdx int, arg Val)
 	return out, true
 }
 
+// varargsStaticTypes: the static types of the values packed into the variadic argument (an array filled by constant-
+// index stores of MakeInterface values); nil where unknown.
+func varargsStaticTypes(c *ssa.CallCommon, argIdx int) []types.Type {
+	if argIdx >= len(c.Args) {
+		return nil
+	}
+	ssl, ok := c.Args[argIdx].(*ssa.Slice)
+	if !ok {
+		return nil
+	}
+	al, ok := ssl.X.(*ssa.Alloc)
+	if !ok {
+		return nil
+	}
+	arr, ok := deref(al.Type()).Underlying().(*types.Array)
+	if !ok || arr.Len() > 16 {
+		return nil
+	}
+	out := make([]types.Type, arr.Len())
+	refs := al.Referrers()
+	if refs == nil {
+		return out
+	}
+	for _, r := range *refs {
+		ia, ok := r.(*ssa.IndexAddr)
+		if !ok {
+			continue
+		}
+		cst, ok := ia.Index.(*ssa.Const)
+		if !ok || cst.Value == nil {
+			continue
+		}
+		j, _ := constant.Int64Val(cst.Value)
+		if ir := ia.Referrers(); ir != nil {
+			for _, u := range *ir {
+				if stv, ok := u.(*ssa.Store); ok && stv.Addr == ia {
+					if mi, ok := stv.Val.(*ssa.MakeInterface); ok && j >= 0 && j < arr.Len() {
+						out[j] = mi.X.Type()
+					}
+				}
+			}
+		}
+	}
+	return out
+}
+
 func (e *Engine) newStringSlice(st *State, name string) Val {
 	v := e.freshVal(name, types.NewSlice(tString))
 	ref := e.newRef(st, name)
@@ -241,6 +287,27 @@ func init() {
 			implies(and("(or (< "+n+" 0) (>= "+n+" 2))", "(not (= "+sep+" \"\"))", "(str.contains "+s+" "+sep+")"), "(>= (s_len "+v.T+") 2)"),
 			"(forall ((j Int)) (! (=> (and (<= 0 j) (< j (s_len "+v.T+"))) (str.contains "+s+" "+elem("j")+")) :pattern ("+elem("j")+")))",
 		))
+		// exact result for the common constant limits 2 and 3 (non-empty separator)
+		if cst, ok := c.Args[2].(*ssa.Const); ok && cst.Value != nil {
+			if k, ok := constant.Int64Val(cst.Value); ok && (k == 2 || k == 3) {
+				ln := "(s_len " + v.T + ")"
+				sl := "(str.len " + sep + ")"
+				i1 := e.sc.define("spl_i1", "Int", "(str.indexof "+s+" "+sep+" 0)")
+				rest1 := e.sc.define("spl_r1", "String", "(str.substr "+s+" (+ "+i1+" "+sl+") (str.len "+s+"))")
+				has1 := "(str.contains " + s + " " + sep + ")"
+				first := "(str.substr " + s + " 0 " + i1 + ")"
+				if k == 2 {
+					e.assume(st, implies("(not (= "+sep+" \"\"))", implies(has1, and("(= "+ln+" 2)", "(= "+elem("0")+" "+first+")", "(= "+elem("1")+" "+rest1+")"))))
+				} else {
+					has2 := "(str.contains " + rest1 + " " + sep + ")"
+					i2 := e.sc.define("spl_i2", "Int", "(str.indexof "+rest1+" "+sep+" 0)")
+					rest2 := "(str.substr " + rest1 + " (+ " + i2 + " " + sl + ") (str.len " + rest1 + "))"
+					e.assume(st, implies("(not (= "+sep+" \"\"))", and(
+						implies(and(has1, "(not "+has2+")"), and("(= "+ln+" 2)", "(= "+elem("0")+" "+first+")", "(= "+elem("1")+" "+rest1+")")),
+						implies(and(has1, has2), and("(= "+ln+" 3)", "(= "+elem("0")+" "+first+")", "(= "+elem("1")+" (str.substr "+rest1+" 0 "+i2+"))", "(= "+elem("2")+" "+rest2+")")))))
+				}
+			}
+		}
 		return v, true
 	}
 	H["strings.Fields"] = func(e *Engine, fc *fnCtx, st *State, c *ssa.CallCommon, a []Val, r types.Type) (Val, bool) {
@@ -385,6 +452,62 @@ func init() {
 		e.logStore(hn, ref)
 		nref := ite("(= (s_ref "+a[0].T+") 0)", "0", ref)
 		return Val{T: e.sc.define("clone", "Slice", "(mk_slice "+nref+" (s_off "+a[0].T+") (s_len "+a[0].T+") (s_len "+a[0].T+"))"), S: "Slice", GoT: r}, true
+	}
+	// bufio.Scanner as a trusted stream contract: the token sequence of a scanner is a function of its reader (and split
+	// function); tokens(src) = tokAt(src, 0) .. tokAt(src, tokCount(src)-1). Scan() advances by one token and returns
+	// false at the end of the sequence or, at any point, because of an error that Err() then reports.
+	scHeap := func(e *Engine, st *State, f, srt string) string { return e.heapIn(st, "HF_bufio.Scanner_$"+f, "(Array Int "+srt+")") }
+	scSet := func(e *Engine, st *State, f, srt, ref, v string) {
+		e.setHeapIn(st, "HF_bufio.Scanner_$"+f, "(Array Int "+srt+")", store(scHeap(e, st, f, srt), ref, v))
+	}
+	H["bufio.NewScanner"] = func(e *Engine, fc *fnCtx, st *State, c *ssa.CallCommon, a []Val, r types.Type) (Val, bool) {
+		ref := e.newRef(st, "scanner")
+		e.sc.declareFun("tokCount", []string{"Int"}, "Int")
+		e.sc.declareFun("tokAt", []string{"Int", "Int"}, "String")
+		if !e.sc.declared["tokCountAx"] {
+			e.sc.declared["tokCountAx"] = true
+			e.sc.assert("(forall ((s Int)) (! (>= (tokCount s) 0) :pattern ((tokCount s))))")
+		}
+		scSet(e, st, "src", "Int", ref, a[0].T)
+		scSet(e, st, "pos", "Int", ref, "0")
+		scSet(e, st, "err", "Int", ref, "0")
+		e.w.Trusted["bufio.Scanner: the token sequence is a function of the reader; Scan yields the tokens in order and stops at the end or with an error reported by Err"] = true
+		return Val{T: ref, S: "Int", GoT: r}, true
+	}
+	H["(*bufio.Scanner).Scan"] = func(e *Engine, fc *fnCtx, st *State, c *ssa.CallCommon, a []Val, r types.Type) (Val, bool) {
+		sc := a[0].T
+		e.sc.declareFun("tokCount", []string{"Int"}, "Int")
+		src := sel(scHeap(e, st, "src", "Int"), sc)
+		pos := sel(scHeap(e, st, "pos", "Int"), sc)
+		olderr := sel(scHeap(e, st, "err", "Int"), sc)
+		ok := e.sc.declareConst("scanok", "Bool")
+		nerr := e.freshVal("scanerr", types.Universe.Lookup("error").Type())
+		// a scanner that has stopped stays stopped; otherwise: true => a further token exists; false => end of input or error
+		e.assume(st, and(
+			implies(ok, and("(= "+olderr+" 0)", "(< "+pos+" (tokCount "+src+"))")),
+			implies(and(not(ok), "(= "+nerr.T+" 0)", "(= "+olderr+" 0)"), "(= "+pos+" (tokCount "+src+"))")))
+		scSet(e, st, "err", "Int", sc, ite(ok, "0", ite("(= "+olderr+" 0)", nerr.T, olderr)))
+		scSet(e, st, "pos", "Int", sc, ite(ok, "(+ "+pos+" 1)", pos))
+		return Val{T: ok, S: "Bool", GoT: r}, true
+	}
+	H["(*bufio.Scanner).Text"] = func(e *Engine, fc *fnCtx, st *State, c *ssa.CallCommon, a []Val, r types.Type) (Val, bool) {
+		sc := a[0].T
+		e.sc.declareFun("tokAt", []string{"Int", "Int"}, "String")
+		src := sel(scHeap(e, st, "src", "Int"), sc)
+		pos := sel(scHeap(e, st, "pos", "Int"), sc)
+		return Val{T: e.sc.define("tok", "String", "(tokAt "+src+" (- "+pos+" 1))"), S: "String", GoT: r}, true
+	}
+	H["(*bufio.Scanner).Err"] = func(e *Engine, fc *fnCtx, st *State, c *ssa.CallCommon, a []Val, r types.Type) (Val, bool) {
+		return Val{T: sel(scHeap(e, st, "err", "Int"), a[0].T), S: "Int", GoT: r}, true
+	}
+	H["(*bufio.Scanner).Split"] = func(e *Engine, fc *fnCtx, st *State, c *ssa.CallCommon, a []Val, r types.Type) (Val, bool) {
+		// another split function: another (unrelated) token sequence of the same reader
+		e.sc.declareFun("tokSplit", []string{"Int"}, "Int")
+		scSet(e, st, "src", "Int", a[0].T, "(tokSplit "+sel(scHeap(e, st, "src", "Int"), a[0].T)+")")
+		return Val{S: "Tuple"}, true
+	}
+	H["(*bufio.Scanner).Buffer"] = func(e *Engine, fc *fnCtx, st *State, c *ssa.CallCommon, a []Val, r types.Type) (Val, bool) {
+		return Val{S: "Tuple"}, true // changes capacity limits only: they show up as errors
 	}
 	// maps.Values / maps.Keys (x/exp and std-lib collectors): a fresh slice holding each present key's value (key)
 	// exactly once, in unspecified order - a bijection between the present keys and the indices of the result.
@@ -815,6 +938,58 @@ func init() {
 		elems, oke := e.varargsElems(st, c, 1, a[1])
 		if !okf || !oke || len(elems) == 0 || len(elems) > 4 {
 			return e.freshVal("sprintf", r), true
+		}
+		// exact when every verb is %s / %v and every argument is statically a string: plain concatenation
+		if ts := varargsStaticTypes(c, 1); len(ts) == len(elems) {
+			allStr := true
+			for _, t := range ts {
+				if t == nil || !isStringT(t) {
+					allStr = false
+				}
+			}
+			if allStr {
+				var parts []string
+				k, okFmt, lit := 0, true, ""
+				for i := 0; i < len(format) && okFmt; i++ {
+					if format[i] != '%' {
+						lit += string(format[i])
+						continue
+					}
+					if i+1 >= len(format) {
+						okFmt = false
+						break
+					}
+					i++
+					switch format[i] {
+					case '%':
+						lit += "%"
+					case 's', 'v':
+						if k >= len(elems) {
+							okFmt = false
+							break
+						}
+						if lit != "" {
+							parts = append(parts, smtString(lit))
+							lit = ""
+						}
+						_, ub := e.boxFns(tString)
+						parts = append(parts, "("+ub+" "+elems[k]+")")
+						k++
+					default:
+						okFmt = false
+					}
+				}
+				if okFmt && k == len(elems) {
+					if lit != "" {
+						parts = append(parts, smtString(lit))
+					}
+					t := parts[0]
+					if len(parts) > 1 {
+						t = "(str.++ " + strings.Join(parts, " ") + ")"
+					}
+					return Val{T: e.sc.define("spf", "String", t), S: "String", GoT: r}, true
+				}
+			}
 		}
 		f := fmt.Sprintf("sprintf_%d", len(elems))
 		sorts := []string{"String"}
